@@ -198,6 +198,24 @@ theorem C18_counterexample_local_key :
     formats a key itself) -/
 theorem C18_key_sites_current_tree : Consts.epKeySitesCanonical = 1 := by decide
 
+/-! ## Purity
+
+`parse`, `Endpoint.string`, `tars2endpoint`, `endpoint2tars` are Lean functions: what they return
+depends on their argument only, so two calls with the same argument agree whatever happens in
+between or at the same time.  The Go functions are pure as long as they keep no state between
+calls; that is what the anchor below (no package-level flag target, no package-level variable
+written / address-taken / method-called in the four functions) and the stream `conc` (results of
+concurrent calls = results of the same calls made alone) check on the current tree. -/
+
+/-- statement of purity used by the harness: a result does not depend on the calls made before -/
+theorem C18_parse_pure (var : Variant) (s : Bytes) (history : List Bytes) :
+    (history.map (parse var), parse var s).2 = parse var s := rfl
+
+/-- tie to the current tree: every target registered with the FlagSet is a local of `Parse`, and
+    none of Parse / String / Tars2endpoint / Endpoint2tars touches a package-level variable
+    (extractor rule "purity" of extract/c18.go) -/
+theorem C18_parse_pure_current_tree : Consts.epParsePure = 1 := by decide
+
 /-! ## Clause 5: no string makes the parser crash -/
 
 /-- with the guard (pending/C18-parse-guard.patch) `Parse` returns for **every** byte string -/
